@@ -12,7 +12,7 @@ import (
 func TestMain(m *testing.M) { hk.Main(m, "C15") }
 
 func TestS3(t *testing.T) {
-	hk.RunSub(t, hk.Sub[Plan]{Name: "s3/cache-coherence", Quick: 1500, Thorough: 12000, Gen: Gen, Run: Run, Journal: true})
+	hk.RunSub(t, hk.Sub[Plan]{Name: "s3/cache-coherence", Quick: 3000, Thorough: 12000, Gen: Gen, Run: Run, Journal: true})
 }
 
 func TestWhiteBox(t *testing.T) {
@@ -21,5 +21,5 @@ func TestWhiteBox(t *testing.T) {
 
 // TestStress is the real-goroutine variant of the white-box check (cached reads concurrent with event application).
 func TestStress(t *testing.T) {
-	hk.RunSub(t, hk.Sub[SPlan]{Name: "s4/cache-stress", Quick: 150, Thorough: 1500, Gen: GenS, Run: RunS, Journal: true})
+	hk.RunSub(t, hk.Sub[SPlan]{Name: "s4/cache-stress", Quick: 300, Thorough: 1500, Gen: GenS, Run: RunS, Journal: true})
 }
